@@ -232,6 +232,13 @@ func (p *Program) Explore(entryFn *ssa.Function, cfg RunConfig) *Result {
 						}
 					}
 				}
+				// the model of a path that ends in a crash or a deadlock must be
+				// taken while its path condition is still asserted
+				var endModel map[string]uint64
+				endFeasible := false
+				if (out.kind == oCrash || out.kind == oBlocked) && !sol.dead {
+					endModel, endFeasible = w.model(nil)
+				}
 				sol.send("(pop)")
 				if sol.dead {
 					rmu.Lock()
@@ -281,7 +288,14 @@ func (p *Program) Explore(entryFn *ssa.Function, cfg RunConfig) *Result {
 						stop = true
 					}
 				case oCrash, oBlocked:
-					m, _ := w.model(nil)
+					m, feasible := endModel, endFeasible
+					if !feasible {
+						// the path condition has no model: the path itself is an
+						// artefact (must not happen: every branch is solver-checked)
+						key := "ENGINE-ERROR: path ending in " + out.kind.String() + " has an unsatisfiable path condition: " + truncate(out.msg, 500)
+						incon[key] = true
+						break
+					}
 					v := &Violation{Kind: strings.ToLower(out.kind.String()), Label: out.kind.String(), Msg: out.msg, Trace: w.trace, Model: m, Nondet: w.fillNondet(m), Events: w.events, Entry: res.Entry}
 					res.Violations = append(res.Violations, v)
 					res.ViolPrefixes = append(res.ViolPrefixes, pathPrefix{Alts: w.trace, Cvals: w.ctrace})
